@@ -290,6 +290,9 @@ class Engine:
         self.inputs = {}          # name -> value (for model read-back)
         self.lemmas = {}
         self.ghost_at = {}
+        self.attr_hooks = {}
+        self.filters = {}
+        self.heap = {}            # global ghost state (object heaps) visible to code hooks and to every spec
         from . import builtins as B
         B.install(self)
 
@@ -300,6 +303,7 @@ class Engine:
         self.fresh_n = 0
         self.spec = 0
         self.inputs = {}
+        self.heap = {}
         self.size_terms = []
         for a in self.axioms:
             self.solver.add(a)
@@ -675,9 +679,14 @@ class Engine:
         except KeyError:
             if node.id in self.builtins:
                 return self.builtins[node.id]
+            if node.id in self.heap:
+                return self.heap[node.id]
             fb = getattr(self, 'spec_fallback', None)
             if self.spec and fb is not None and fb.has(node.id):
                 return fb.lookup(node.id)
+            pe = getattr(self, 'param_env', None)
+            if self.spec and pe is not None and node.id in pe.vars:
+                return pe.vars[node.id]     # spec helper lambdas may name the parameters of the function under contract
             if self.spec:
                 raise EngineError('unknown name %r in spec' % node.id)
             if env.has('__locals__') and node.id in env.lookup('__locals__'):
@@ -843,7 +852,10 @@ class Engine:
         if isinstance(node.func, ast.Name) and node.func.id in ('forall', 'exists') and not env.has(node.func.id):
             return self.quantifier(node, env)
         if isinstance(node.func, ast.Name) and node.func.id == 'old' and not env.has('old'):
-            oe = env.lookup('__old_env__')
+            try:
+                oe = env.lookup('__old_env__')
+            except KeyError:
+                oe = self.cur_old_env      # inside a spec helper lambda: the old state of the contract being evaluated
             return self.eval(node.args[0], oe)
         f = self.eval(node.func, env)
         args = []
@@ -999,14 +1011,28 @@ class Engine:
         line = self.line
         for k, r in enumerate(c.requires):
             self.oblige(self._b(self.spec_truth(r, env)), 'pre-of-callee:%s:%d@%d' % (c.short, k, line), line)
-        old_env = Env(env.parent, {k: self.snapshot(v) for k, v in vals.items()})
+        old_vals = {k: self.snapshot(v) for k, v in vals.items()}
+        old_vals.update({k: self.snapshot(v) for k, v in self.heap.items()})
+        old_env = Env(env.parent, old_vals)
         env.vars['__old_env__'] = old_env
+        saved_old, self.cur_old_env = getattr(self, 'cur_old_env', None), old_env
+        try:
+            return self._call_contract_body(c, env, line)
+        finally:
+            self.cur_old_env = saved_old
+
+    def _call_contract_body(self, c, env, line):
         # exceptional outcomes
+        # raises[E] = [trigger over the entry state, guarantees on the state left behind when E is raised ...]
         for exc, conds in c.raises.items():
-            cond = self.And(*[self._b(self.spec_truth(x, env)) for x in conds]) if conds else None
-            if cond is None:
+            if not conds:
                 continue
-            if self.branch(cond):
+            trig = self._b(self.spec_truth(conds[0], env))
+            if self.branch(trig):
+                for m in c.modifies:
+                    self.havoc_path(m, env)
+                for x in conds[1:]:
+                    self.assume(self._b(self.spec_truth(x, env)))
                 raise PyExc(exc, (), line)
         for m in c.modifies:
             self.havoc_path(m, env)
